@@ -11,7 +11,7 @@ ID = 'C06'
 RULE = ('Reachable removal-enabled states of both classes (histories of 1-12 calls incl. node attributes, self-loops, '
         'reciprocal arcs) x 3 windows whose bounds are drawn from {run start, run end, +-1 around them, range+-2}; modes: '
         '[a,b], t_to omitted, inverted. Oracles: class; presence of H == model.slice over all ordered pairs x probes; '
-        'nodes == endpoints of the sliced interactions with G\'s attribute dicts; observe(G) unchanged; H well formed '
+        'nodes == endpoints of the sliced interactions with G\'s attribute dicts (values include objects equal only to themselves that refuse copying); observe(G) unchanged; H well formed '
         '(C03 timelines, C04 snapshot index, C05 stream, C02 battery); slice of a slice == slice by the intersection '
         '(empty graph when disjoint); t_to < t_from raises ValueError; dn.time_slice agrees. '
         'non-trivial = the window cuts a run strictly inside and misses another run entirely.')
@@ -24,7 +24,7 @@ WIN = st.lists(st.tuples(st.integers(0, 63), st.integers(0, 63), st.sampled_from
 
 
 def strategy(tier):
-    return st.tuples(gen.tiered(tier, max_ops=12, rejects=False), WIN, WIN).map(
+    return st.tuples(gen.tiered(tier, max_ops=12, rejects=False, attrs='handles'), WIN, WIN).map(
         lambda x: dict(x[0], win=[list(w) for w in x[1]], win2=[list(w) for w in x[2]]))
 
 
@@ -151,4 +151,6 @@ def run_case(case, rec):
     for c in d.classes:
         rec.classify(c)
     rec.classify(case['cls'])
+    if any(op[0] in ('node', 'nodes_from') and 'hnd' in repr(op[2]) for op in case['ops']):
+        rec.classify('node attribute value equal only to itself / not copyable')
     return nontrivial
